@@ -237,15 +237,23 @@ class PlanJoinTablesQuery:
         binary_ops = []
 
         def _check_node_condition(node, **kwargs):
-            if isinstance(node, BetweenOperation):
-                self.check_node_condition(node)
-
             if isinstance(node, BinaryOperation):
                 binary_ops.append(node.op)
 
-                self.check_node_condition(node)
-
         query_traversal(query.where, _check_node_condition)
+
+        # only a top-level conjunct of WHERE restricts the result on its own:
+        #  a comparison under OR / NOT / a function can't be moved to a table or to model arguments
+        def _top_level_conjuncts(node):
+            if isinstance(node, BinaryOperation) and node.op.lower() == 'and' and not isinstance(node, BetweenOperation):
+                for arg in node.args:
+                    yield from _top_level_conjuncts(arg)
+            elif node is not None:
+                yield node
+
+        for node in _top_level_conjuncts(query.where):
+            if isinstance(node, (BetweenOperation, BinaryOperation)):
+                self.check_node_condition(node)
 
         self.query_context['binary_ops'] = binary_ops
 
